@@ -9,6 +9,8 @@
 //                {own, sibling, child, no component, null} x order set/unset = 100 models), same oracle and mutation phase
 //   imports-api / imports-parsed : the import-sharing grid (imported component with an imported child / grandchild / sibling,
 //                with or without imported units, EVERY partition of those entities into shared import-source objects: 21 models)
+//   twins-api / twins-parsed : the twins grid (content-equal sibling components / variables / units / resets with equivalences,
+//                resets and shared import sources attached to the first, the later or both twins: 122 models)
 //   foreign-eq : models one of whose variables is equivalent to a variable outside the model (orphan / orphan component /
 //                other model): carve-out of the semantic oracle (what a copy of such a link should be is not stated); judged:
 //                no crash, and the clone's equivalences among its OWN variables are exactly the original's.
@@ -205,15 +207,121 @@ static json importGridSpec(const IDims &d)
     if (d.place == 2) m["components"].push_back(J);
     return m;
 }
-static int g_grid = 0; // 0: the 8-dimension model grid, 1: the reset-link grid, 2: the import-sharing grid
-static json specOf(uint64_t i) { return g_grid == 2 ? importGridSpec(idimsAt(i)) : g_grid ? resetGridSpec(rdimsAt(i)) : modelSpec(dimsAt(i)); }
-static json whereOf(uint64_t i) { return g_grid == 2 ? idimsJson(idimsAt(i)) : g_grid ? rdimsJson(rdimsAt(i)) : dimsJson(dimsAt(i)); }
+// ---- the twins grid: content-equal siblings (components, variables, units, resets) with equivalences, resets and shared import
+// sources attached to the first / the LATER / both twins (equivalences and object identity are not content, so twins stay equal)
+//  A  component twins T,T   : placement {top level, encapsulated} x equivalence on {none, first, later, both} x twins have a reset {no, yes}
+//                             x import {local, each imported with its own source, later shares the source of another import Y, both share one}  = 64
+//  B  variable twins tw,tw  : equivalence on {none, first, later, both} x reset refers to {none, first, later, later+first}
+//                             x units {standard by name, equal own objects, ONE shared object}                                               = 48
+//  C  units twins U,U       : variable refers to {first, later} x import {no, own sources, later shares with Y, both share}                   = 8
+//  D  reset twins r,r       : order {set, unset}                                                                                             = 2
+static uint64_t twinGridCount() { return 64 + 48 + 8 + 2; }
+static json twinDims(uint64_t i)
+{
+    static const char *on[] = {"none", "first twin", "later twin", "both twins"};
+    static const char *imp[] = {"local", "imported, own equal sources", "imported, later twin shares the source object of another import", "imported, both share one source object"};
+    if (i < 64) { Radix r(i); int place = int(r.take(2)), eq = int(r.take(4)), res = int(r.take(2)), im = int(r.take(4));
+        return {{"grid", "twins"}, {"twins", "components"}, {"placement", place ? "encapsulated under P" : "top level"}, {"equivalence_on", on[eq]}, {"twins_have_reset", bool(res)}, {"import", imp[im]}}; }
+    i -= 64;
+    if (i < 48) { Radix r(i); int eq = int(r.take(4)), rr = int(r.take(4)), un = int(r.take(3));
+        static const char *refs[] = {"none", "variable=first twin", "variable=later twin", "variable=later twin, test_variable=first twin"};
+        static const char *units[] = {"standard units by name", "equal own units objects", "one shared units object"};
+        return {{"grid", "twins"}, {"twins", "variables"}, {"equivalence_on", on[eq]}, {"reset", refs[rr]}, {"units", units[un]}}; }
+    i -= 48;
+    if (i < 8) { Radix r(i); int ref = int(r.take(2)), im = int(r.take(4));
+        return {{"grid", "twins"}, {"twins", "units"}, {"variable_refers_to", ref ? "later twin" : "first twin"}, {"import", imp[im]}}; }
+    i -= 8;
+    return {{"grid", "twins"}, {"twins", "resets"}, {"order", i ? "unset" : "set"}};
+}
+static bool g_twinAlias = false; // set by twinSpec: build this model with an alias registry (content-equal own units are one object)
+static json twinSpec(uint64_t i)
+{
+    g_twinAlias = false;
+    auto var = [](const std::string &n, const std::string &id, json u) { return json{{"k", "var"}, {"name", n}, {"id", id}, {"iv", "1.0"}, {"iface", "public_and_private"}, {"u", u}}; };
+    json second = {{"k", "units"}, {"name", "second"}}, u1link = {{"k", "units"}, {"name", "u1"}, {"link", true}};
+    auto comp = [&](const std::string &n) {
+        return json{{"k", "comp"}, {"name", n}, {"id", n + "_id"}, {"eid", n + "_eid"}, {"math", ""}, {"variables", json::array({var("v1", n + "_v1", u1link), var("v2", n + "_v2", second)})},
+                    {"resets", json::array()}, {"components", json::array()}};
+    };
+    json reset = {{"k", "reset"}, {"id", "r1"}, {"oset", true}, {"order", 3}, {"var", 0}, {"tvar", 1}, {"tval", MATH_A}, {"tid", "r1_t"}, {"rval", MATH_C}, {"rid", "r1_r"}};
+    auto source = [](const std::string &tag) { return json{{"id", "is_id"}, {"url", "library.cellml"}, {"share", tag}}; }; // equal CONTENT whatever the tag
+    json m = {{"k", "model"}, {"name", "m"}, {"id", "m_id"}, {"eid", "m_eid"},
+              {"units", json::array({{{"k", "units"}, {"name", "u1"}, {"id", "u1_id"}, {"unit", json::array({{{"ref", "second"}, {"prefix", "milli"}, {"exp", -1.0}, {"mult", 1.0}, {"id", "u1a"}}})}}})},
+              {"components", json::array()}, {"eqs", json::array()}};
+    json Y = {{"k", "comp"}, {"name", "Y"}, {"id", "Y_id"}, {"eid", ""}, {"iref", "remote_Y"}, {"isrc", source("sy")}};
+    auto at = [](json p, int v) { p.push_back(v); return p; };
+    if (i < 64) {
+        Radix r(i);
+        int place = int(r.take(2)), eq = int(r.take(4)), res = int(r.take(2)), im = int(r.take(4));
+        json T1 = comp("T"), T2 = comp("T"), X = comp("X");
+        if (res) { T1["resets"].push_back(reset); T2["resets"].push_back(reset); }
+        if (im) {
+            T1["iref"] = "remote_T"; T2["iref"] = "remote_T";
+            T1["isrc"] = source(im == 3 ? "st" : "s1");
+            T2["isrc"] = source(im == 3 ? "st" : im == 2 ? "sy" : "s2");
+        }
+        json pX, pT1, pT2;
+        if (place == 0) { m["components"] = json::array({X, T1, T2}); pX = json::array({0}); pT1 = json::array({1}); pT2 = json::array({2}); }
+        else { json P = comp("P"); P["components"] = json::array({T1, T2}); m["components"] = json::array({P, X}); pX = json::array({1}); pT1 = json::array({0, 0}); pT2 = json::array({0, 1}); }
+        if (im == 2) m["components"].push_back(Y);
+        if (eq & 1) m["eqs"].push_back({{"a", at(pT1, 0)}, {"b", at(pX, 0)}, {"mid", "map1"}, {"cid", "con1"}});
+        // same connection id on both: after print -> parse both connections name "T" and land on the FIRST twin, and two different
+        // ids on one component pair make equivalenceConnectionId() depend on object addresses; the mapping ids stay distinct
+        if (eq & 2) m["eqs"].push_back({{"a", at(pT2, 0)}, {"b", at(pX, 1)}, {"mid", "map2"}, {"cid", "con1"}});
+        return m;
+    }
+    i -= 64;
+    if (i < 48) {
+        Radix r(i);
+        int eq = int(r.take(4)), rr = int(r.take(4)), un = int(r.take(3));
+        json own = {{"k", "units"}, {"name", "ow"}, {"id", "ow_id"}, {"unit", json::array({{{"ref", "kelvin"}, {"prefix", "kilo"}, {"exp", 1.0}, {"mult", 2.0}, {"id", "ow1"}}})}};
+        json tu = un == 0 ? second : own;
+        g_twinAlias = un == 2;
+        json A = comp("A"), X = comp("X");
+        A["variables"] = json::array({var("tw", "tw_id", tu), var("tw", "tw_id", tu), var("w", "w_id", second)});
+        if (rr) { json rs = reset; rs["var"] = rr == 1 ? 0 : 1; rs["tvar"] = rr == 3 ? 0 : 2; A["resets"].push_back(rs); }
+        m["components"] = json::array({A, X});
+        if (eq & 1) m["eqs"].push_back({{"a", {0, 0}}, {"b", {1, 0}}, {"mid", "map1"}, {"cid", "con1"}});
+        // one connection id per component pair (two different ids on one pair cannot be written in a document, and which of them
+        // equivalenceConnectionId() then reports depends on object addresses)
+        if (eq & 2) m["eqs"].push_back({{"a", {0, 1}}, {"b", {1, 1}}, {"mid", "map2"}, {"cid", "con1"}});
+        return m;
+    }
+    i -= 48;
+    if (i < 8) {
+        Radix r(i);
+        int ref = int(r.take(2)), im = int(r.take(4));
+        json U = {{"k", "units"}, {"name", "U"}, {"id", "U_id"}};
+        json U1 = U, U2 = U;
+        if (im == 0) { U1["unit"] = json::array({{{"ref", "metre"}, {"prefix", ""}, {"exp", 2.0}, {"mult", 1.0}, {"id", ""}}}); U2["unit"] = U1["unit"]; }
+        else { U1["iref"] = "remote_U"; U2["iref"] = "remote_U"; U1["isrc"] = source(im == 3 ? "st" : "s1"); U2["isrc"] = source(im == 3 ? "st" : im == 2 ? "sy" : "s2"); }
+        m["units"].push_back(U1);
+        m["units"].push_back(U2);
+        json A = comp("A");
+        A["variables"][0]["u"] = {{"k", "units"}, {"name", "U"}, {"ulink", 1 + ref}};
+        m["components"] = json::array({A});
+        if (im == 2) m["components"].push_back(Y);
+        return m;
+    }
+    i -= 8;
+    json A = comp("A");
+    json rs = reset;
+    rs["oset"] = i == 0;
+    A["resets"] = json::array({rs, rs});
+    m["components"] = json::array({A, comp("X")});
+    m["eqs"].push_back({{"a", {0, 0}}, {"b", {1, 0}}, {"mid", "map1"}, {"cid", "con1"}});
+    return m;
+}
+static int g_grid = 0; // 0: the 8-dimension model grid, 1: the reset-link grid, 2: the import-sharing grid, 3: the twins grid
+static json specOf(uint64_t i) { return g_grid == 3 ? twinSpec(i) : g_grid == 2 ? importGridSpec(idimsAt(i)) : g_grid ? resetGridSpec(rdimsAt(i)) : modelSpec(dimsAt(i)); }
+static json whereOf(uint64_t i) { return g_grid == 3 ? twinDims(i) : g_grid == 2 ? idimsJson(idimsAt(i)) : g_grid ? rdimsJson(rdimsAt(i)) : dimsJson(dimsAt(i)); }
 
 // ------------------------------------------------------------------------------------------------ worlds
 static PrinterPtr g_printer;
 static ParserPtr g_parser;
 struct World
 {
+    AliasMap aliases;
     Builder b;
     ModelPtr model;
     std::vector<EntityPtr> ents;
@@ -241,6 +349,7 @@ static void listEntities(World &w)
 struct Source
 {
     json spec;
+    bool alias = false; // build with an alias registry: content-equal own units objects are ONE object inside this model
     bool parsed = false;
     std::string text; // printed form of the API-built model (origin "parsed")
 };
@@ -251,6 +360,7 @@ static std::unique_ptr<World> fresh(const Source &s, Ctx &c)
         w->model = g_parser->parseModel(s.text);
         c.logger(g_parser, "parser");
     } else {
+        if (s.alias) w->b.alias = &w->aliases;
         w->model = w->b.buildModel(s.spec);
     }
     listEntities(*w);
@@ -836,7 +946,7 @@ static void judgeEntity(const Source &src, size_t ei, Ctx &c, const json &where)
         nm[1] = mutsOf(k0).size();
     }
     for (int side = 0; side < 2; ++side) {
-        std::string otherBefore, selfBefore; // the build is deterministic: computed on the first world, re-checked on the last one
+        std::string selfBefore, firstOther;
         for (size_t mi = 0; mi < nm[side]; ++mi) {
             auto w2 = fresh(src, c);
             auto e2 = w2->ents[ei];
@@ -845,12 +955,12 @@ static void judgeEntity(const Source &src, size_t ei, Ctx &c, const json &where)
             auto ms = mutsOf(side == 0 ? e2 : k2, mi);
             if (mi >= ms.size()) { c.violation("harness:mutation-list-not-stable", det({})); break; }
             auto originalSide = [&] { return deepOf(w2->model) + " ## " + deepOf(e2); };
-            if (mi == 0 || mi + 1 == nm[side]) {
-                std::string ob = side == 0 ? deepOf(k2) : originalSide(), sb = side == 0 ? originalSide() : deepOf(k2);
-                if (mi != 0 && (ob != otherBefore || sb != selfBefore)) { c.violation("harness:fresh-worlds-differ", det({})); break; }
-                otherBefore = ob;
-                selfBefore = sb;
-            }
+            // the other side's dump is taken on THIS world right before the mutation (a dump cached from another fresh world would
+            // turn any address-dependent getter of the library into a false "changed"); only the vacuity reference is cached
+            std::string otherBefore = side == 0 ? deepOf(k2) : originalSide();
+            if (mi == 0) selfBefore = side == 0 ? originalSide() : deepOf(k2);
+            if (mi == 0) firstOther = otherBefore;
+            else if (otherBefore != firstOther) c.outcome("note:dump-differs-between-fresh-worlds(address-dependent-getter)");
             ms.picked.apply();
             std::string otherAfter = side == 0 ? deepOf(k2) : originalSide();
             std::string selfAfter = side == 0 ? originalSide() : deepOf(k2);
@@ -868,10 +978,14 @@ static void judgeEntity(const Source &src, size_t ei, Ctx &c, const json &where)
 static Source sourceAt(uint64_t i, bool parsed, Ctx *c)
 {
     Source s;
+    g_twinAlias = false;
     s.spec = specOf(i);
+    s.alias = g_twinAlias;
     s.parsed = parsed;
     if (s.parsed) {
         Builder b;
+        AliasMap am;
+        if (s.alias) b.alias = &am;
         auto m = b.buildModel(s.spec);
         s.text = g_printer->printModel(m);
         if (c) c->logger(g_printer, "printer");
@@ -963,6 +1077,10 @@ int main(int argc, char **argv)
          [](uint64_t i) { g_grid = 2; json j = {{"dims", whereOf(i)}, {"origin", "api"}, {"spec", specOf(i)}}; g_grid = 0; return j; }},
         {"imports-parsed", importGridCount, [](uint64_t i, Ctx &c) { g_grid = 2; runClone(i, true, c); g_grid = 0; },
          [](uint64_t i) { g_grid = 2; Source s = sourceAt(i, true, nullptr); json j = {{"dims", whereOf(i)}, {"origin", "printed-then-parsed"}, {"document", s.text}}; g_grid = 0; return j; }},
+        {"twins-api", twinGridCount, [](uint64_t i, Ctx &c) { g_grid = 3; runClone(i, false, c); g_grid = 0; },
+         [](uint64_t i) { g_grid = 3; json j = {{"dims", whereOf(i)}, {"origin", "api"}, {"spec", specOf(i)}}; g_grid = 0; return j; }},
+        {"twins-parsed", twinGridCount, [](uint64_t i, Ctx &c) { g_grid = 3; runClone(i, true, c); g_grid = 0; },
+         [](uint64_t i) { g_grid = 3; Source s = sourceAt(i, true, nullptr); json j = {{"dims", whereOf(i)}, {"origin", "printed-then-parsed"}, {"document", s.text}}; g_grid = 0; return j; }},
         {"foreign-eq", foreignCount, runForeign, [](uint64_t i) { Radix r(i); int sh = int(r.take(4)), o = int(r.take(3)), in = int(r.take(2)); return json{{"shape", sh}, {"outside", o}, {"internal", in}}; }},
     };
     return harnessMain(argc, argv, fs);
